@@ -158,7 +158,8 @@ func checkC14(c *Ctx) error {
 	}
 	// a shared parent context that an EARLIER render has written to (a template function, a contentFor block): executions on
 	// child contexts use what it defined, each with its own data
-	const prelude = `<% let deepfn = fn(n) { if (n == 0) { return "ok" } return deepfn(n - 1) } %><% contentFor("shared") { %>[<%= label %>:<%= for (v) in [1, 2] { %><%= label %><% } %>]<% } %>`
+	// (the defining render has itself written nested arrays and resolved a path after an index before it stores the block)
+	const prelude = `<%= if (true) { %><%= if (true) { %><%= [1, [2]] %><% } %><% } %><% let first = sx[0] %><% let deepfn = fn(n) { if (n == 0) { return "ok" } return deepfn(n - 1) } %><% contentFor("shared") { %>[<%= label %>:<%= for (v) in [1, 2] { %><%= label %><%= if (true) { %><%= [label, [label]] %><% } %><% } %>]<% } %>`
 	for _, g := range []int{2, 8} {
 		scenarios = append(scenarios,
 			c14Scenario{Kind: "sharedfn", G: g, Topo: "child", Iters: 4, Src: `<%= deepfn(180) %>|<%= gid %>|<%= deepfn(2) %>`, Parts: map[string]string{"__prelude": prelude}},
